@@ -195,6 +195,13 @@ void ScriptedBackend::ReportResults() {
   Ev("ReportResults");
   if (script_.raise_at == 2) MP_RAISE("scripted failure in ReportResults");
   SetStatus({script_.status, script_.status_msg});
+  if (auto f = lp()->rec) {   // observe the library's own classification of this code
+    fprintf(f, "{\"e\":\"Classify\",\"code\":%d,\"solved\":%s,\"sof\":%s,\"inf\":%s,\"unb\":%s,\"indiff\":%s,\"infunb\":%s}\n",
+            SolveCode(), IsProblemSolved() ? "true" : "false", IsProblemSolvedOrFeasible() ? "true" : "false",
+            IsProblemInfeasible() ? "true" : "false", IsProblemUnbounded() ? "true" : "false",
+            IsProblemIndiffInfOrUnb() ? "true" : "false", IsProblemInfOrUnb() ? "true" : "false");
+    fflush(f);
+  }
   for (int i = 0; i < script_.n_interm; ++i) {
     std::vector<double> x(lp()->nvars, (double)(i + 1));
     auto mv = GetValuePresolver().PostsolveSolution({x, {}, std::vector<double>{(double)(10 + i)}});
